@@ -44,12 +44,16 @@ TRUSTED = [
 ASSUMPTIONS = [
     "API contract of the 4CF entry points: only the bound (main) thread reads the main queue's handle and calls "
     "_dispatch_main_queue_callback_4CF (scheduler constraint of the model, mbegin MService / MCallback)",
-    "scope of the model: dispatch_main() is called when no dispatch_sync / dispatch_async_and_wait onto the main queue is in flight "
-    "and none is started afterwards (a context still queued would be handed the drain lock on the ordinary-lane paths of "
-    "Model/SyncWait.v); work items do not submit to the main queue from inside their own callout (such pushes are accepted by the "
-    "trace automaton, not by the global model); the main queue is never suspended or retargeted.  Scenario phase2_sync runs "
-    "synchronous callers across dispatch_main(): judged by the oracle only",
-    "fair scheduling for 'everything submitted runs' (the watchdog allows 10 s without progress)",
+    "MODEL SCOPE (restrictions of Model/MainQ.v on the client, not API contracts; the theorems are silent outside them): "
+    "dispatch_main() is called when no dispatch_sync / dispatch_async_and_wait onto the main queue is in flight and NO such call "
+    "is started afterwards at all (MSync is disabled once dispatch_main() was called; a context still queued would be handed the "
+    "drain lock on the ordinary-lane paths of Model/SyncWait.v); a work item may dispatch_async_f onto the main queue from inside "
+    "its callout on the bound thread (modelled: mbegin MAsync at MB_incall, theorems hold over it, scenario resubmit), but not "
+    "from inside its callout on a worker after dispatch_main() and not synchronously (those pushes are accepted by the trace "
+    "automaton and judged by the oracle in scenarios phase2 / phase2_sync, not by the global model); the main queue is never "
+    "suspended or retargeted",
+    "fair scheduling for 'everything submitted runs' (the harness watchdog is progress-based: 10 s without any submission, "
+    "callout or return)",
 ]
 IMPORTS = ["Word", "Conc", "Gen_consts", "Gen_dqstate", "SLane", "MainQ", "MainQT"]
 MASK = 0x3fffffff
@@ -74,8 +78,19 @@ def build():
     return exe
 
 
+HARNESS_LIMIT = 240
+
+
 def run_harness(exe, seed, scn, permille, scale):
-    r = common.run([exe, str(seed), scn, str(permille), str(scale)], timeout=240)
+    """-> (stdout, died).  The harness has its own progress-based watchdog (rc 3 + a FAIL STUCK line after 10 s without any
+    submission / callout / return): that is a verdict.  The wall-clock limit here is only a guard: when it expires the run
+    is repeated ONCE, alone, with ten times the limit, and only that second run is judged."""
+    cmd = [exe, str(seed), scn, str(permille), str(scale)]
+    r = common.run(cmd, timeout=HARNESS_LIMIT)
+    if r.returncode == 124:
+        r = common.run(cmd, timeout=10 * HARNESS_LIMIT)
+        if r.returncode == 124:
+            return r.stdout or "", "no exit within %d s (run alone, after a first expiry of %d s)" % (10 * HARNESS_LIMIT, HARNESS_LIMIT)
     if r.returncode not in (0, 1, 3):
         return r.stdout or "", "rc=%s %s" % (r.returncode, (r.stderr or "")[-300:])
     return r.stdout, None
@@ -157,8 +172,14 @@ def normalise(lay, per):
     return out, dropped
 
 
+class TieBroken(Exception):
+    pass
+
+
 def coq_conform(name, jobs, chunk_events=5000, timeout=900):
-    """jobs: list of (self, ismain, floor, main, p2, [NEv]) -> list of int lists [idx, idle, counts...]"""
+    """jobs: list of (self, ismain, floor, main, p2, [NEv]) -> list of int lists [idx, idle, counts...], one per job.
+    Raises TieBroken when Coq does not deliver exactly one result per trace (after one repetition with ten times the limit
+    when the first attempt hit the wall-clock limit)."""
     res, i, ci = [], 0, 0
     while i < len(jobs):
         part, n = [], 0
@@ -170,14 +191,21 @@ def coq_conform(name, jobs, chunk_events=5000, timeout=900):
         body = ["Definition jobs : list (Z * Z * Z * Z * Z * list event) := [", ";\n".join(rows), "].",
                 "Eval vm_compute in map (fun '(sv, im, fl, mn, p2, tr) => conform sv im fl mn p2 tr) jobs."]
         ok, vals, raw = driver.coq_eval("%s_%d" % (name, ci), IMPORTS, "\n".join(body) + "\n", timeout=timeout)
+        if not ok and "TIMEOUT" in raw:
+            ok, vals, raw = driver.coq_eval("%s_%d" % (name, ci), IMPORTS, "\n".join(body) + "\n", timeout=10 * timeout)
         ci += 1
         if not ok or len(vals) != 1:
-            raise RuntimeError("coq conformance evaluation failed: " + raw[-2000:])
+            raise TieBroken("the Coq evaluation of MainQT.conform on %d recorded traces failed: %s" % (len(part), raw[-1500:]))
         got = [driver.ints(r) for r in re.findall(r"\[([^\[\]]*)\]", vals[0])]
-        if len(got) != len(part):
-            raise RuntimeError("coq conformance: %d results for %d traces: %s" % (len(got), len(part), vals[0][:300]))
+        if len(got) != len(part) or any(len(g) < 2 for g in got):
+            raise TieBroken("the Coq evaluation of MainQT.conform returned %d results for %d traces: %s" % (len(got), len(part), vals[0][:300]))
         res += got
     return res
+
+
+def case_name(ctx, what):
+    """file name under .cache/cases: carries the property id and the process id (two checks may run at the same time)"""
+    return "c02mq_%s_%s_%d" % (what, re.sub(r"\W", "_", str(getattr(ctx, "pid", "x"))), os.getpid())
 
 
 def total_order_oracle(per, main_thr):
@@ -256,7 +284,9 @@ PLANS = {   # (scenario, permille, scale)
 
 
 def analyse(text, died, scn, label, args):
-    fails, jobs, meta = [], [], []
+    """-> (failures, jobs, meta, stats, main_thr, ties): `ties` are broken-tie dicts of this run (no usable output, truncated
+    output, no trace recorded): never a silent pass"""
+    fails, jobs, meta, ties = [], [], [], []
     lay, main_tid, roles, flines, stats, per = parse(text)
     for what in flines:
         key = "%s:%s" % (scn, " ".join(what.split()[:5]))
@@ -265,9 +295,18 @@ def analyse(text, died, scn, label, args):
     if died:
         fails.append({"key": "%s:died" % scn, "what": "stress client died in scenario %s (%s): %s" % (scn, label, died), "args": args})
     if lay is None or main_tid is None:
-        return fails, jobs, meta, stats, None
+        ties.append({"what": "a stress run of harness/c02_mainq.c printed no layout / main-thread line: nothing of this run was judged",
+                     "detail": {"run": label, "args": args, "output_bytes": len(text or ""), "died": died}})
+        return fails, jobs, meta, stats, None, ties
+    if not died and "fails" not in stats:
+        ties.append({"what": "the output of a stress run of harness/c02_mainq.c is truncated (no final statistics line): the run "
+                             "cannot be judged", "detail": {"run": label, "args": args, "output_bytes": len(text or "")}})
     traces, dropped = normalise(lay, per)
     main_thr = next((thr for thr, tr in traces.items() if per[thr][0].tid == main_tid), None)
+    if main_thr is None or len(traces) < 2:
+        ties.append({"what": "a stress run of harness/c02_mainq.c recorded no trace of the main thread or of any client thread "
+                             "(recording hook compiled out / dump missing?)",
+                     "detail": {"run": label, "args": args, "threads_recorded": len(traces)}})
     if scn == "direct" and main_thr is not None and not died and not flines:
         for p in total_order_oracle(traces, main_thr):
             fails.append({"key": "%s:order" % scn, "what": "%s [scenario %s, run %s]" % (p, scn, label), "args": args})
@@ -280,74 +319,165 @@ def analyse(text, died, scn, label, args):
         for thr, tr in sorted(traces.items()):
             tid = per[thr][0].tid
             jobs.append((tid & MASK, 1 if tid == main_tid else 0, 0, main_tid & MASK, 1 if scn.startswith("phase2") else 0, tr))
-            meta.append({"run": label, "thread": thr, "tid": tid, "role": "main" if tid == main_tid else roles.get(tid, "worker")})
+            meta.append({"run": label, "args": args, "thread": thr, "tid": tid,
+                         "role": "main" if tid == main_tid else roles.get(tid, "worker")})
     stats["dropped_events"] = dropped
-    return fails, jobs, meta, stats, main_thr
+    return fails, jobs, meta, stats, main_thr, ties
+
+
+def judge(ctx, exe, runs, what):
+    """run the harness on every (seed, scenario, permille, scale) of `runs`, judge the output with the oracle and replay every
+    recorded thread trace through MainQT.tstep in Coq.  Used by correspond() and, on the recorded inputs, by replay()."""
+    fails, mism, jobs, meta, dist, nitems = [], [], [], [], {}, 0
+    for (seed, scn, pm, scale) in runs:
+        text, died = run_harness(exe, seed, scn, pm, scale)
+        label = "seed%d/%s/%d/%d" % (seed, scn, pm, scale)
+        f, j, m, st, _, ties = analyse(text, died, scn, label, [seed, scn, pm, scale])
+        fails += f
+        mism += ties
+        jobs += j
+        meta += m
+        nitems += st.get("items", 0)
+        for k in ("reads", "nested_reads", "pokes", "spurious", "phase2_runs", "async", "dropped_events", "resub", "resub_last"):
+            dist[k] = dist.get(k, 0) + st.get(k, 0)
+        dist["runs_" + scn] = dist.get("runs_" + scn, 0) + 1
+        if st.get("items", 0) <= 0 and not died:
+            mism.append({"what": "a stress run of harness/c02_mainq.c submitted no item at all", "detail": {"run": label, "args": [seed, scn, pm, scale]}})
+    counts, nev = [0] * 64, 0
+    try:
+        res = coq_conform(case_name(ctx, what), jobs) if jobs else []
+    except TieBroken as e:
+        mism.append({"what": "the recorded traces could not be replayed through MainQT.tstep in Coq (evaluation failed: nothing ties "
+                             "the model to these runs)", "detail": {"error": str(e)[-1800:], "plan": [list(r) for r in runs]}})
+        res = None
+    if res is not None:
+        if not (len(res) == len(jobs) == len(meta)):
+            mism.append({"what": "internal: %d conformance results for %d traces (%d descriptions)" % (len(res), len(jobs), len(meta)),
+                         "detail": {"plan": [list(r) for r in runs]}})
+        for g, (sv, im, fl, mn, p2, tr), mt in zip(res, jobs, meta):
+            nev += len(tr)
+            i, idle = g[0], g[1]
+            for k, c in enumerate(g[2:]):
+                counts[k] += c
+            if i != -1 or idle != 1:
+                lo = max(0, i - 10)
+                mism.append({"what": "a recorded thread trace of the library is not accepted by the main-queue thread automaton "
+                                     "(MainQT.tstep): the implementation took a step the model does not have, or a dq_state "
+                                     "compare-exchange does not carry the value of the generated body of its program point",
+                             "detail": dict(mt, rejected_at=i, ended_idle=idle,
+                                            around=[e.brief() for e in tr[lo:i + 3]] if i >= 0 else [e.brief() for e in tr[-8:]])})
+    return {"fails": fails, "mism": mism, "jobs": jobs, "meta": meta, "dist": dist, "nitems": nitems, "counts": counts, "nev": nev}
+
+
+def required_for(runs):
+    """the branches every run of these scenarios reaches (dozens to thousands of times)"""
+    scns = set(r[1] for r in runs)
+    req = set()
+    if scns & set(("direct", "targeting", "nested", "spurious", "resubmit", "phase2")):
+        req |= set((1, 2, 3, 5, 7, 8, 21, 26))
+    if scns & set(("direct", "targeting", "nested", "spurious")):
+        req |= set((16, 17, 25))
+    if "resubmit" in scns:
+        req.add(41)
+    if "phase2" in scns:
+        req |= set((27, 32, 33, 37))
+    return sorted(req)
 
 
 def correspond(ctx):
     exe = build()
     plan = PLANS["quick" if ctx.tier == "quick" else "thorough"]
-    fails, mism, jobs, meta, dist, nitems = [], [], [], [], {}, 0
-    for i, (scn, pm, scale) in enumerate(plan):
-        seed = ctx.seed * 1000 + i
-        text, died = run_harness(exe, seed, scn, pm, scale)
-        label = "seed%d/%s/%d/%d" % (seed, scn, pm, scale)
-        f, j, m, st, _ = analyse(text, died, scn, label, [seed, scn, pm, scale])
-        fails += f
-        jobs += j
-        meta += m
-        nitems += st.get("items", 0)
-        for k in ("reads", "nested_reads", "pokes", "spurious", "phase2_runs", "async", "dropped_events"):
-            dist[k] = dist.get(k, 0) + st.get(k, 0)
-        dist["runs_" + scn] = dist.get("runs_" + scn, 0) + 1
-    res = coq_conform("c02mq_conf", jobs)
-    counts, nev = [0] * 64, 0
-    for g, (sv, im, fl, mn, p2, tr), mt in zip(res, jobs, meta):
-        nev += len(tr)
-        i, idle = g[0], g[1]
-        for k, c in enumerate(g[2:]):
-            counts[k] += c
-        if i != -1 or idle != 1:
-            lo = max(0, i - 10)
-            mism.append({"what": "a recorded thread trace of the library is not accepted by the main-queue thread automaton "
-                                 "(MainQT.tstep): the implementation took a step the model does not have, or a dq_state "
-                                 "compare-exchange does not carry the value of the generated body of its program point",
-                         "detail": dict(mt, rejected_at=i, ended_idle=idle,
-                                        around=[e.brief() for e in tr[lo:i + 3]] if i >= 0 else [e.brief() for e in tr[-8:]])})
+    runs = [(ctx.seed * 1000 + i, scn, pm, scale) for i, (scn, pm, scale) in enumerate(plan)]
+    r = judge(ctx, exe, runs, "conf")
+    fails, mism, jobs, meta, dist, counts, nev = r["fails"], r["mism"], r["jobs"], r["meta"], r["dist"], r["counts"], r["nev"]
     for k, name in TAGS.items():
         dist["branch_" + name] = counts[k]
     missing = [TAGS[k] for k in REQUIRED if counts[k] == 0]
     if missing and not mism:
         mism.append({"what": "the stress runs did not reach these branches of the main-queue protocol: " + ", ".join(missing),
-                     "detail": {"branch_counts": {TAGS[k]: counts[k] for k in TAGS}}})
+                     "detail": {"branch_counts": {TAGS[k]: counts[k] for k in TAGS}, "plan": [list(x) for x in runs]}})
+    if dist.get("runs_resubmit", 0) and dist.get("resub", 0) <= 0 and not mism:
+        mism.append({"what": "scenario resubmit: no work item submitted to the main queue from inside its callout",
+                     "detail": {"plan": [list(x) for x in runs if x[1] == "resubmit"]}})
+    if (not jobs or nev <= 0) and not mism:
+        mism.append({"what": "no thread trace was recorded and replayed in this run (%d traces, %d events): nothing ties the model "
+                             "to the code" % (len(jobs), nev), "detail": {"plan": [list(x) for x in runs]}})
+    dist["runs_requested"] = len(runs)
+    dist["runs_with_traces"] = len(set(m["run"] for m in meta))
     shapes = len([c for c in counts if c])
     samples = [dict(meta[k], first_events=[e.brief() for e in jobs[k][5][:20]]) for k in range(min(3, len(jobs)))]
     return {"evaluations": nev, "distinct_nontrivial": shapes,
-            "rule": "stress runs of harness/c02_mainq.c, one scenario per process (direct, targeting, nested, spurious, phase2, "
-                    "phase2_sync), 4..7 client threads against the main thread acting as the run loop, schedule perturbation inside "
-                    "the library's atomic operations (0..45 percent of events); every atomic operation on &_dispatch_main_q and on "
-                    "the waiters' thread events, every eventfd read / write, futex call and call / return / callout mark is recorded "
-                    "per thread and each thread's whole trace is replayed through MainQT.tstep inside Coq (every dq_state "
-                    "compare-exchange checked against the generated body of its program point); API-level oracle on the same runs: "
-                    "overlap counter, callouts of the thread-bound phase on the main thread, per-producer order, total tail-exchange "
-                    "order (scenario direct), synchronous calls return after completion and exactly once, stuck watchdog; "
-                    "evaluations = recorded events replayed; distinct = distinct automaton branches taken",
-            "samples": samples, "distribution": dist, "traces_validated_against_impl": len(jobs), "items_judged": nitems,
+            "rule": "stress runs of harness/c02_mainq.c, one scenario per process (direct, targeting, nested, spurious, resubmit, "
+                    "phase2, phase2_sync), 4..7 client threads against the main thread acting as the run loop, schedule perturbation "
+                    "inside the library's atomic operations (0..45 percent of events); every atomic operation on &_dispatch_main_q "
+                    "and on the waiters' thread events, every eventfd read / write, futex call and call / return / callout mark is "
+                    "recorded per thread and each thread's whole trace is replayed through MainQT.tstep inside Coq (every dq_state "
+                    "compare-exchange checked against the generated body of its program point; phase2_sync: oracle only); API-level "
+                    "oracle on the same runs: overlap counter, callouts of the thread-bound phase on the main thread, per-producer "
+                    "order (the bound thread / the draining worker being one more producer when items resubmit from inside their "
+                    "callout), total tail-exchange order (scenario direct), synchronous calls return after completion and exactly "
+                    "once, stuck watchdog (progress-based); evaluations = recorded events actually replayed; distinct = distinct "
+                    "automaton branches taken",
+            "samples": samples, "distribution": dist, "traces_validated_against_impl": len(jobs), "items_judged": r["nitems"],
             "mismatches": mism[:20], "failures": fails[:20]}
 
 
 def replay(ctx, obj):
-    exe = build()
+    """re-executes the recorded inputs (seed, scenario, perturbation, scale: the same parameters) against the current build and
+    judges them again with the oracle and the Coq conformance.  1: a failure / rejected trace shows again; 0: every recorded
+    input was re-executed and judged clean; 2: nothing in the file could be re-executed (a proof or a site tie that no longer
+    checked: only a full ./check re-establishes those)."""
+    runs, plans, unexec = [], [], []
+
+    def add(a):
+        if isinstance(a, (list, tuple)) and len(a) == 4:
+            t = (int(a[0]), str(a[1]), int(a[2]), int(a[3]))
+            if t not in runs:
+                runs.append(t)
+            return True
+        return False
     for f in obj.get("failures", []):
         print("recorded failure:", f.get("what"))
-        a = f.get("args")
-        if a:
-            text, died = run_harness(exe, *a)
-            f2, _, _, _, _ = analyse(text, died, a[1], "replay", a)
-            print("re-run %s: %d failures" % (a, len(f2)))
-            for x in f2[:5]:
-                print("  ", x["what"])
+        if not add(f.get("args")):
+            unexec.append(f.get("what"))
     for b in obj.get("broken", []):
-        print("no longer checks:", b)
-    return 1
+        d = b.get("detail")
+        dd = d.get("detail") if isinstance(d, dict) else None
+        if b.get("what") == "correspondence" and isinstance(dd, dict) and (dd.get("args") or dd.get("plan")):
+            print("recorded broken tie:", d.get("what"))
+            if dd.get("args"):
+                add(dd["args"])
+            else:
+                plan = [tuple(x) for x in dd["plan"] if len(x) == 4]
+                plans.append((d.get("what", ""), plan))
+                for x in plan:
+                    add(x)
+        else:
+            print("no longer checked (not re-executable from this file; only a full ./check re-establishes it):",
+                  str(d if not isinstance(d, dict) else d.get("what", d))[:600])
+            unexec.append(b.get("what"))
+    if not runs:
+        print("nothing in this replay file could be re-executed")
+        return 2
+    exe = build()
+    r = judge(ctx, exe, runs, "replay")
+    bad = 0
+    for f in r["fails"]:
+        print("REPRODUCED failure:", f["what"])
+        bad += 1
+    for m in r["mism"]:
+        print("REPRODUCED broken tie:", m["what"], str(m.get("detail"))[:700])
+        bad += 1
+    for what, plan in plans:
+        if "did not reach these branches" in what:
+            miss = [TAGS[k] for k in required_for(plan) if r["counts"][k] == 0]
+            if miss:
+                print("REPRODUCED: the recorded plan still does not reach: " + ", ".join(miss))
+                bad += 1
+    print("re-executed %d recorded run(s): %s; %d events replayed through MainQT.tstep" % (len(runs), ", ".join("seed%d/%s/%d/%d" % x for x in runs), r["nev"]))
+    if bad:
+        return 1
+    print("does not reproduce: every recorded input was re-executed against the current build and judged clean")
+    if unexec:
+        print("(%d entr%s of the file could not be re-executed, see above)" % (len(unexec), "y" if len(unexec) == 1 else "ies"))
+    return 0
